@@ -172,7 +172,7 @@ func c16TransportOptsV(kind, mode string, opening []byte, seed uint64, v c16Vari
 				// the client answers every DO/DONT/WILL/WONT triple with one triple while it opens
 				// (property C15's subject); take the answers off the wire before the script starts
 				k := c16TelnetTriples(opening)
-				if v.reject == "telnet-reset" {
+				if v.reject == "telnet-reset" || v.reject == "telnet-reset-negotiating" {
 					// the peer drops the connection in the middle of the negotiation
 					if tc, ok := c.(*net.TCPConn); ok {
 						_ = tc.SetLinger(0)
@@ -198,6 +198,9 @@ func c16TransportOptsV(kind, mode string, opening []byte, seed uint64, v c16Vari
 			}
 			ch <- acc{c, err}
 		}()
+		if v.reject == "telnet-refused" { // nobody listens on the port
+			l.Close()
+		}
 		opts := []util.Option{options.WithPort(l.Port), options.WithTimeoutSocket(c16TelnetSocket)}
 		return opts, func() (*c16Conn, error) {
 			a := <-ch
